@@ -54,7 +54,7 @@ def build_fixed(rng, *, nsectors: int, legacy: bool = False, tag: int = 1, kind:
 def build_dynamic(rng, *, block_size: int, nblocks: int, tail_cut_sectors: int = 0, states=None,
                   placement: str = "shuffle", tag: int = 1, kind: int = 0, bitmaps: str = "ones",
                   header_off: int = 512, table_gap: int = 0, extra_entries: int = 0, far_sector: int = 0, orig_size=None, uid: bytes | None = None,
-                  table_place: str = "front"):
+                  table_place: str = "front", stale_copy: bool = False):
     """states[i] in {'A','U'}; bitmaps in ones|random|zeros (data under 0 bits is stored as zeros).
     table_place: front (header, BAT, blocks), behind (header, blocks, BAT) or middle (BAT between the blocks): all
     offsets in the format are absolute, the table may sit anywhere."""
@@ -117,7 +117,13 @@ def build_dynamic(rng, *, block_size: int, nblocks: int, tail_cut_sectors: int =
     uid = uid or bytes(rng.randrange(256) for _ in range(16))
     sf = SparseFile()
     ft = footer(size, header_off, 3, uid, orig_size=orig_size, temporary=rng.random() < 0.3, info_rng=rng)
-    sf.put(0, ft)
+    if stale_copy:
+        # the copy at the start of the file was not rewritten when the disk was last resized / re-identified: only the
+        # footer at the end of the file is authoritative (both carry valid checksums)
+        old_uid = bytes(rng.randrange(256) for _ in range(16))
+        sf.put(0, footer(max(SECTOR, size // 2 - size // 2 % SECTOR), header_off, 3, old_uid, info_rng=rng))
+    else:
+        sf.put(0, ft)
     dh = struct.pack(">8sQQIIII", b"cxsparse", 0xFFFFFFFFFFFFFFFF, table_off, 0x00010000, max_entries, block_size, 0)
     dh += b"\0" * 16 + struct.pack(">II", 0, 0) + b"\0" * 512 + b"\0" * (8 * 24) + b"\0" * 256
     assert len(dh) == 1024
